@@ -581,6 +581,7 @@ Fixpoint enc_dop (fuel : nat) (d : dop) (v : value) (s : estate) {struct fuel} :
       match bs with
       | None => Ok s1
       | Some b =>
+        if b <? e_cur s1 - orig_pos then Err ERej else
         if e_cur s1 - orig_pos <? b then
           let endp := orig_pos + b in
           let missing := endp - blen (e_msg s1) in
